@@ -341,7 +341,54 @@ def rule_refusal(check):
     check.expect(errs == [True], R, R + "/cancelled-is-error", hir.loc(t.rec), "Cancelled -> Err, nothing printed", "a cancelled rewrite is not turned into an error")
 
 
+def rule_counter(check):
+    R = "COUNTER"
+    check.rule(R, "every temporary created between two resets gets a fresh number: next_ident returns the counter and increments it by one unconditionally, the number it returns is the one the name is built from, and reset_counter is the only other writer")
+    prog = check.prog
+    pv = Prov(prog)
+    ni = _impl_method(prog, "DefaultIdentProvider", "next_ident")
+    incs = [n for n in ni.nodes() if n.get("k") == "AssignOp" and (hir.place(n["l"]) or "").endswith(".ident_counter")]
+    ok = len(incs) == 1 and incs[0]["op"] in ("Add", "AddAssign") and hir.lit_value(incs[0]["r"]) == 1 and not ni.conds_at(incs[0])
+    check.expect(ok, R, R + "/increment", hir.loc(ni.rec), "counter += 1 on every call", "next_ident does not increment the counter by one on every call")
+    rets = return_exprs(ni.body)
+    ro = set()
+    for r in rets:
+        ro |= pv.origins(ni, r)
+    ok = bool(ro) and all(r[0] == "param" and p and p[-1] == "ident_counter" for r, p in ro)
+    before = all(hir.local_of(r) and ni.bindings()[hir.local_of(r)[0]]["origin"][1]["id"] < incs[0]["id"] for r in rets if hir.local_of(r)) if incs else False
+    check.expect(ok and before, R, R + "/returns-counter", hir.loc(ni.rec), "returns the value of the counter before the increment", "next_ident does not return the pre-increment counter value")
+    writers = sorted({f.name for f in prog.user_fns for n in f.nodes() if n.get("k") in ("Assign", "AssignOp") and (hir.place(n["l"]) or "").endswith(".ident_counter")})
+    check.expect(writers == ["next_ident", "reset_counter"], R, R + "/writers", "-", "ident_counter written only by next_ident and reset_counter", "ident_counter is written in %s" % writers)
+    rc = _impl_method(prog, "DefaultIdentProvider", "reset_counter")
+    z = [n for n in rc.nodes() if n.get("k") == "Assign" and hir.lit_value(n["r"]) == 0]
+    check.expect(len(z) == 1, R, R + "/reset", hir.loc(rc.rec), "reset_counter sets 0", "reset_counter does not set the counter to 0")
+    g = prog.fn("IdentProvider::get_temporal_ident_used_in_assignation")
+    cae = [n for n in hir.calls_in(g.body, name="create_assign_expression")]
+    ok = len(cae) == 1
+    if ok:
+        o = pv.origins(g, hir.call_args(cae[0])[1])
+        ok = all(r[0] == "call" and r[1].split("::")[-1] == "next_ident" for r, p in o) and bool(o)
+    check.expect(ok, R, R + "/index-from-counter", hir.loc(g.rec), "the name index is the number just drawn", "create_assign_expression is not fed the number returned by next_ident")
+    ca = prog.fn("IdentProvider::create_assign_expression")
+    names = [n for n in hir.calls_in(ca.body, name="get_dd_local_variable_name")]
+    ok = len(names) == 1 and all(r[0] == "param" and r[2] == 1 for r, p in pv.origins(ca, hir.call_args(names[0])[0]))
+    check.expect(ok, R, R + "/name-from-index", hir.loc(ca.rec), "name = prefix + index parameter", "the temporary name is not built from the index parameter")
+    nm = prog.fn("visitor_util::get_dd_local_variable_name")
+    from .. import fmtargs
+
+    fm = fmtargs.formats_in(nm)
+    ok = len(fm) == 1 and [k for k, v in fm[0][1]] == ["arg", "arg"] and hir.local_of(fm[0][1][1][1]) and nm.bindings()[hir.local_of(fm[0][1][1][1])[0]]["origin"][:2] == ("param", 0)
+    check.expect(bool(ok), R, R + "/name-format", hir.loc(nm.rec), "name = <prefix><n>", "get_dd_local_variable_name does not append the number to the prefix")
+    ids = [n for n in hir.walk(ca.body) if n.get("k") == "Struct" and (n["res"].get("path") or "").endswith("swc_ecma_ast::Ident")]
+    ok = len(ids) == 1
+    if ok:
+        flds = {x["name"]: x["e"] for x in ids[0]["fields"]}
+        ok = (hir.def_path_of(flds["span"]) or "").endswith("DUMMY_SP")
+    check.expect(ok, R, R + "/dummy-span", hir.loc(ca.rec), "injected identifiers carry DUMMY_SP (what the collision check uses to tell them from user identifiers)", "injected identifiers no longer carry DUMMY_SP: the collision check treats them as user identifiers")
+
+
 def run(check):
+    check.guarded("COUNTER", rule_counter)
     check.guarded("DECLARE-PATH", rule_declare_path)
     check.guarded("RESET-DISCIPLINE", rule_reset)
     check.guarded("TYPEGRAPH", rule_typegraph)
